@@ -526,6 +526,64 @@ def d3_loaders(chk: Check) -> None:
                    "all parser calls are inside the try", False)
 
 
+def d3b_same_documents_per_arm(chk: Check) -> None:
+    """"Reading a document from a file or from standard input gives the
+    same outcome."  Besides using the same parser call (C16-D3), the arms of
+    the multi-document loader must yield the same documents for the same
+    text -- in particular for the empty text.  An arm that adds a fallback
+    document ("deliberately empty input") when its stream yielded nothing,
+    next to an arm that yields nothing at all, makes the number of documents
+    depend on the delivery."""
+    prog = chk.prog
+    chk.rule("C16-D3b", "the STDIN, literal and file arms of "
+             "get_yaml_multidoc_data agree on the fallback document for an "
+             "input that yields no document", floor=1)
+    fi = prog.func("Parsers.get_yaml_multidoc_data")
+    loads = [c for c in walk_local(fi.node) if isinstance(c, ast.Call) and
+             isinstance(c.func, ast.Attribute) and c.func.attr == "load_all"]
+    arms = []
+    for c in loads:
+        loop = next((a for a in ancestors(c) if isinstance(a, ast.For)), None)
+        if loop is None:
+            continue
+        # statements of the arm: the block that holds the loop (or the
+        # `with` around it)
+        top: ast.AST = loop
+        while isinstance(parent(top), ast.With):
+            top = parent(top)
+        blk_owner = parent(top)
+        blk = None
+        for fld in ("body", "orelse"):
+            b = getattr(blk_owner, fld, None)
+            if isinstance(b, list) and top in b:
+                blk = b
+        after = blk[blk.index(top) + 1:] if blk else []
+        fallback = any(isinstance(y, ast.Yield) for st in after
+                       for y in ast.walk(st))
+        handles = {src(i.optional_vars) for a in ancestors(c)
+                   if isinstance(a, ast.With) for i in a.items
+                   if i.optional_vars is not None}
+        kind = "STDIN" if "stdin" in src(c) else (
+            "file" if c.args and src(c.args[0]) in handles else "literal")
+        arms.append((kind, fallback, c))
+    if len(arms) != 3:
+        raise AnalysisError("arms of get_yaml_multidoc_data: {}".format(
+            [a[0] for a in arms]))
+    with_fb = sorted(k for k, f, _ in arms if f)
+    without = sorted(k for k, f, _ in arms if not f)
+    text = "get_yaml_multidoc_data: fallback document per arm"
+    if with_fb and without:
+        chk.fail("C16-D3b", fi, arms[0][2], text,
+                 "the {} arm yields a fallback document for an input that "
+                 "holds no document, the {} arm(s) yield nothing: the same "
+                 "(empty) text is one document from one source and none "
+                 "from the other".format("/".join(with_fb),
+                                         "/".join(without)))
+    else:
+        chk.ok("C16-D3b", fi, arms[0][2], text,
+               "all arms {}".format("have one" if with_fb else "have none"))
+
+
 def d4_d5(chk: Check, model: CliModel) -> None:
     prog = chk.prog
     chk.rule("C16-D4", "ConsolePrinter.critical never returns", floor=1)
@@ -924,6 +982,75 @@ def d11_value_as_supplied(chk: Check) -> None:
                             .format(n_arms))
 
 
+def d15_alias_option_table(chk: Check) -> None:
+    """yaml-paths maps the parsed reference option onto the two flags the
+    search takes.  The mapping is a table with one row per IncludeAliases
+    member; main() is specialised for each member (partial evaluation) and
+    the two flags it hands to the search are compared with the documented
+    row."""
+    from sa.peval import Enum as _E, PEval as _P
+    prog = chk.prog
+    chk.rule("C16-D15", "yaml-paths main(): per IncludeAliases member the "
+             "(key-alias, value-alias) flags handed to the search are the "
+             "documented ones", floor=4)
+    mains = [f for f in prog.funcs_in("yamlpath/commands/yaml_paths.py")
+             if f.node.name == "main"]
+    if len(mains) != 1:
+        raise AnalysisError("yaml_paths.main not found")
+    fi = mains[0]
+    # the names handed on as include_key_aliases= / include_value_aliases=
+    roles = {}
+    for c in walk_local(fi.node):
+        if not isinstance(c, ast.Call):
+            continue
+        for k in c.keywords:
+            if k.arg in ("include_key_aliases", "include_value_aliases") \
+                    and isinstance(k.value, ast.Name):
+                roles[k.arg] = k.value.id
+        for callee in resolve_call(prog, fi, c):
+            ps = callee.params()
+            for i, a in enumerate(c.args):
+                if i < len(ps) and ps[i] in ("include_key_aliases",
+                                             "include_value_aliases") and \
+                        isinstance(a, ast.Name):
+                    roles[ps[i]] = a.id
+    if len(roles) != 2:
+        raise AnalysisError("alias flags handed on by yaml_paths.main not "
+                            "found")
+    want = {"ANCHORS_ONLY": (False, False),
+            "INCLUDE_KEY_ALIASES": (True, False),
+            "INCLUDE_VALUE_ALIASES": (False, True),
+            "INCLUDE_ALL_ALIASES": (True, True)}
+    members = prog.enum_members("IncludeAliases")
+    if set(members) != set(want):
+        raise AnalysisError("IncludeAliases members changed: {}".format(
+            sorted(members)))
+    argsv = None
+    for a in walk_local(fi.node):
+        if isinstance(a, ast.Assign) and isinstance(a.value, ast.Call) and \
+                src(a.value.func) == "processcli":
+            argsv = src(a.targets[0])
+    if argsv is None:
+        raise AnalysisError("yaml_paths.main: parsed options not found")
+    for m in sorted(want):
+        pe = _P(enum_classes={"IncludeAliases"})
+        pe.specialise(fi.node.body,
+                      {argsv + ".include_aliases": _E("IncludeAliases", m)},
+                      pinned=[argsv])
+        got = tuple(getattr(pe.final_env.get(roles[r]), "value", None)
+                    for r in ("include_key_aliases",
+                              "include_value_aliases"))
+        text = "reference option {}".format(m)
+        if got == want[m]:
+            chk.ok("C16-D15", fi, None, text, "flags {}".format(got))
+        else:
+            chk.fail("C16-D15", fi, None, text,
+                     "the search is run with (key aliases, value aliases) = "
+                     "{} but the option means {}: the tool prints another "
+                     "result than the library call it stands for".format(
+                         got, want[m]))
+
+
 def run(chk: Check) -> None:
     prog = chk.prog
     funcs = cli_functions(prog)
@@ -935,6 +1062,7 @@ def run(chk: Check) -> None:
     d1_handlers(chk, model, funcs)
     d2_tables(chk, model)
     d3_loaders(chk)
+    d3b_same_documents_per_arm(chk)
     d4_d5(chk, model)
     d5_ladders(chk)
     d6_every_document(chk, funcs)
@@ -942,9 +1070,13 @@ def run(chk: Check) -> None:
     d9_diff_sides(chk)
     d10_twin_arms(chk)
     d11_value_as_supplied(chk)
+    d15_alias_option_table(chk)
     from rules.shared import shared_state_rule
     shared_state_rule(chk, "C16-D12", sorted({f.module.relpath
                                           for f in funcs}), 40)
     from rules.shared import keyword_coupling_rule
     keyword_coupling_rule(chk, "C16-D13", sorted({f.module.relpath
                                               for f in funcs}), 10)
+    from rules.shared import shared_dest_defaults_rule
+    shared_dest_defaults_rule(chk, "C16-D14", sorted({f.module.relpath
+                                                  for f in funcs}), 1)
